@@ -621,7 +621,7 @@ def judge(scenario, tname, spec, spelling, srows, o):
     earlier_effects = fail_clause is not None and any(n > 0 for n in ref["per_clause"][:fail_clause])
 
     # -- C12.no_exception
-    if cause:
+    if cause and not ref["error"]:  # (where the reference demands an error, an error is not a failure of the member)
         memb.append(("C12.no_exception", cause[0], got[0] == "err"))
     if got[0] == "err" and not ref["error"]:
         cls = cause[0] if cause else f"unexplained:{got[1].rsplit('.', 1)[-1]},spelling={spelling},clauses={_kinds_sig(spec)}"
@@ -684,15 +684,16 @@ def judge(scenario, tname, spec, spelling, srows, o):
             else:
                 expv = {M.KIND_COLUMN[k]: n for k, n in ref["counts"].items()}
                 bad = {c: row[c] for c in row if row[c] != expv[c] or type(row[c]) is not int}
-                if leak_counts:
-                    memb.append(("C12.status_counts", BARE_OR_CLASS, bool(bad)))
-                elif total == 0:
+                # (the all-NULL status row when nothing qualifies is one root cause whatever the clause conditions look like)
+                if total == 0:
                     memb.append(("C12.status_counts", "counts=null_when_no_row_qualifies", bool(bad)))
+                elif leak_counts:
+                    memb.append(("C12.status_counts", BARE_OR_CLASS, bool(bad)))
                 if bad:
-                    if leak_counts:
-                        cls = BARE_OR_CLASS
-                    elif total == 0 and all(v is None for v in row.values()):
+                    if total == 0 and all(v is None for v in row.values()):
                         cls = "counts=null_when_no_row_qualifies"
+                    elif leak_counts:
+                        cls = BARE_OR_CLASS
                     elif all(row[c] == expv[c] for c in row):
                         cls = "unexplained:type=" + ",".join(sorted({type(v).__name__ for v in bad.values()}))
                     else:
